@@ -154,7 +154,7 @@ ReorderSame ==
     /\ UNCHANGED svars
 
 ReorderInvalid(how) ==
-    /\ how \in {"short", "foreign"}
+    /\ how \in {"short", "foreign", "repeat", "repeat_same"}     \* too few identifiers, an unknown one, one listed twice
     /\ ann' = Raises
     /\ act' = A("Reorder", how, "-")
     /\ UNCHANGED svars
@@ -282,7 +282,7 @@ Next ==
     \/ \E n \in Main \cup {m \o "2" : m \in Main} : UpdateValues(n) \/ UpdateValuesBadShape(n)
     \/ \E h \in {"rotate", "reverse"} : Reorder(h)
     \/ ReorderSame
-    \/ \E h \in {"short", "foreign"} : ReorderInvalid(h)
+    \/ \E h \in {"short", "foreign", "repeat", "repeat_same"} : ReorderInvalid(h)
     \/ UpdateFromSame
     \/ UpdateFromNewShape
     \/ \E k \in Coords : SetCoords(k)
